@@ -299,3 +299,34 @@ func isNilConst(v ssa.Value) bool {
 func isErrorType(t types.Type) bool {
 	return types.Identical(t, types.Universe.Lookup("error").Type())
 }
+
+// fieldRead recognises a read of a struct field, either of a struct value (Field) or through
+// an address (load of FieldAddr; covers parameters spilled to locals).
+func fieldRead(v ssa.Value) (baseType types.Type, field string, ok bool) {
+	switch x := v.(type) {
+	case *ssa.Field:
+		return x.X.Type(), fieldValName(x), true
+	case *ssa.UnOp:
+		if x.Op == token.MUL {
+			if fa, ok := x.X.(*ssa.FieldAddr); ok {
+				return deref(fa.X.Type()), fieldAddrName(fa), true
+			}
+		}
+	}
+	return nil, "", false
+}
+
+// isFieldReadOf: v reads field `field` of a value of named type pkg.name.
+func isFieldReadOf(v ssa.Value, pkg, name, field string) bool {
+	t, f, ok := fieldRead(v)
+	return ok && f == field && typeIs(t, pkg, name)
+}
+
+// sameValue: identical SSA value, or two reads of the same place (same canonical access path).
+func sameValue(a, b ssa.Value) bool {
+	if a == b {
+		return true
+	}
+	ea, eb := Expr(a), Expr(b)
+	return ea == eb && !strings.Contains(ea, "?")
+}
